@@ -4,7 +4,8 @@
                                            "C l.. | S l.. | P l.. | H s e,s e,none | A s e"   or PANIC
      G reset | c s e c s e ... | cps    -> one LintGroup::lint call (sentence-schema struct rule + any-word pattern
                                            rule) on these tokens and this source, chunk cache carried over from the
-                                           previous G lines unless reset = 1:  "L s e id,s e id"  / "L -" / PANIC *)
+                                           previous G lines unless reset = 1:  "L s e id,s e id"  / "L -" / PANIC
+     R c s e c s e ...                  -> LongSentences::lint on these tokens: "R s e,s e" / "R -" / PANIC *)
 let rec triples = function
   | c :: s :: e :: t -> (nat_of_int c, (nat_of_int s, nat_of_int e)) :: triples t
   | _ -> []
@@ -24,6 +25,12 @@ let () =
          | Some (cs, (ss, (ps, (hs, a)))) ->
              print_endline (Printf.sprintf "C %s | S %s | P %s | H %s | A %s" (lens cs) (lens ss) (lens ps)
                               (String.concat "," (List.map hull_str hs)) (hull_str a)))
+    | 'R' ->
+        (match run_long (triples (ints_of_line body)) with
+         | None -> print_endline "PANIC"
+         | Some [] -> print_endline "R -"
+         | Some ls -> print_endline ("R " ^ String.concat ","
+                        (List.map (fun (s, e) -> Printf.sprintf "%d %d" (int_of_nat s) (int_of_nat e)) ls)))
     | 'G' ->
         (match split_bar body with
          | [r; toks; src] ->
